@@ -640,4 +640,135 @@ theorem step_refines {r : RingHead} {buf q : List Byte} (h : Abs r buf q)
     obtain ⟨rfl, rfl⟩ : [] = q' ∧ Out.unit = o := by simpa [specStep] using hs
     exact ⟨ringClean r, buf, by simp [stepRing], by simp [ringClean], abs_clean h⟩
 
+
+/-! ### `ring_fixup_index` -/
+
+theorem emod_of_tmod {a b : Int} (hb : 0 < b) :
+    a % b = if a.tmod b < 0 then a.tmod b + b else a.tmod b := by
+  have h1 := Int.lt_tmod_of_pos a hb
+  have h2 := Int.tmod_lt_of_pos a hb
+  have e : a = a.tmod b + b * (a.tdiv b) := by have := Int.tmod_def a b; omega
+  have e2 : a % b = (a.tmod b) % b := by
+    conv => lhs; rw [e]
+    exact Int.add_mul_emod_self_left ..
+  rw [e2]
+  split
+  · rw [← Int.add_emod_right, Int.emod_eq_of_lt (by omega) (by omega)]
+  · rw [Int.emod_eq_of_lt (by omega) (by omega)]
+
+/-- the repaired `ring_fixup_index` is the mathematical `index mod size` for
+EVERY `int` index and every size `1 ≤ size ≤ INT_MAX` -/
+theorem fixupIndex_toInt (r : RingHead) (hs : 0 < r.size.toNat) (hS : r.size.toNat < 2 ^ 31)
+    (i : BitVec 32) : (ringFixupIndex r i).toInt = i.toInt % (r.size.toNat : Int) := by
+  have hsz : r.size.toInt = (r.size.toNat : Int) := BitVec.toInt_eq_toNat_of_lt (by omega)
+  have hb : (0 : Int) < (r.size.toNat : Int) := by omega
+  have hrem : (i.srem r.size).toInt = i.toInt.tmod (r.size.toNat : Int) := by
+    rw [BitVec.toInt_srem, hsz]
+  have h1 := Int.lt_tmod_of_pos i.toInt hb
+  have h2 := Int.tmod_lt_of_pos i.toInt hb
+  rw [emod_of_tmod hb]
+  unfold ringFixupIndex
+  have h0 : (0 : BitVec 32).toInt = 0 := by decide
+  simp only [BitVec.slt_eq_decide, h0, hrem, decide_eq_true_eq]
+  by_cases hneg : i.toInt.tmod (r.size.toNat : Int) < 0
+  · simp only [hneg, if_true]
+    rw [BitVec.toInt_add, hrem, hsz]
+    apply Int.bmod_eq_of_le <;> omega
+  · simp only [hneg, if_false]
+    exact hrem
+
+theorem toNat_of_toInt_nonneg {x : BitVec 32} {n : Nat} (h : x.toInt = (n : Int)) :
+    x.slt 0 = false ∧ x.toNat = n := by
+  have h0 : (0 : BitVec 32).toInt = 0 := by decide
+  constructor
+  · simp only [BitVec.slt_eq_decide, h0, h]; simp
+  · rw [BitVec.toInt_eq_toNat_cond] at h; split at h <;> omega
+
+/-! ### relative accessors: the `k`-th previous element -/
+
+/-- slot of the `k`-th previous element (`k = 0`: newest) = `(head − 1 − k) mod size`, without `%` -/
+def prevSlot (S H k : Nat) : Nat := if k + 1 ≤ H then H - 1 - k else H + S - 1 - k
+
+theorem prevSlot_lt {S H k : Nat} (h1 : H < S) (hk : k < S) : prevSlot S H k < S := by
+  unfold prevSlot; grind
+
+theorem slot_prev {S H T k : Nat} (h1 : H < S) (h2 : T < S) (hk : k < cntN S H T) :
+    (T + (cntN S H T - 1 - k)) % S = prevSlot S H k := by
+  have : cntN S H T < S := cntN_lt h1 h2
+  rw [mod_wrap (by omega)]; unfold cntN prevSlot at *; grind
+
+theorem emod_prev {S H k : Nat} (h1 : H < S) (hk : k < S) :
+    ((H : Int) - 1 - (k : Int)) % (S : Int) = (prevSlot S H k : Int) := by
+  unfold prevSlot
+  split
+  · rw [Int.emod_eq_of_lt (by omega) (by omega)]; omega
+  · rw [← Int.add_emod_right, Int.emod_eq_of_lt (by omega) (by omega)]; omega
+
+theorem prevSlot_eq_mod {S H k : Nat} (h1 : H < S) (hk : k < S) :
+    prevSlot S H k = (H + S - 1 - k) % S := by
+  rw [mod_wrap (by omega)]; unfold prevSlot; grind
+
+theorem abs_prev {α : Type} {r : RingHead} {buf q : List α} (h : Abs r buf q) {k : Nat}
+    (hk : k < q.length) :
+    buf[prevSlot r.size.toNat r.head.toNat k]? = some (q[q.length - 1 - k]'(by omega)) := by
+  obtain ⟨⟨h1, h2⟩, -, hl, hq⟩ := h
+  unfold RingHead.cnt at hl
+  have := hq (q.length - 1 - k) (by omega)
+  rw [← this]
+  congr 2
+  rw [hl, slot_prev h1 h2 (by omega)]
+
+theorem toInt_head_sub (h o i : BitVec 32) (O I : Nat) (ho : o.toNat = O)
+    (hi : i.toNat = I) (hH : h.toNat < 2 ^ 31) (hO : O + I < 2 ^ 31) :
+    (h - o - i - 1).toInt = (h.toNat : Int) - 1 - ((O + I : Nat) : Int) := by
+  rw [BitVec.toInt_eq_toNat_cond]
+  split <;> bv_omega
+
+theorem toInt_head_sub_add (h c o i : BitVec 32) (C O I : Nat) (hc : c.toNat = C) (ho : o.toNat = O)
+    (hi : i.toNat = I) (hH : h.toNat < 2 ^ 31) (hO : C + O < 2 ^ 31) (hI : I < C) :
+    (h - c - o + i).toInt = (h.toNat : Int) - 1 - ((C + O - 1 - I : Nat) : Int) := by
+  rw [BitVec.toInt_eq_toNat_cond]
+  split <;> bv_omega
+
+namespace TRing
+variable {α : Type}
+
+theorem ofNat32_small {n : Nat} (h : n < 2 ^ 31) : (BitVec.ofNat 32 n).toNat = n := by
+  simp only [BitVec.toNat_ofNat]; omega
+
+/-- `last()` uses slot `(head − 1) mod size` for every head position -/
+theorem lastIndex_toInt (t : TRing α) (hwf : t.r.WF) (hS : t.r.size.toNat < 2 ^ 31) :
+    t.lastIndex.toInt = (prevSlot t.r.size.toNat t.r.head.toNat 0 : Int) := by
+  obtain ⟨h1, h2⟩ := hwf
+  unfold lastIndex
+  rw [fixupIndex_toInt t.r (by omega) hS]
+  have : (t.r.head - 1).toInt = (t.r.head.toNat : Int) - 1 - ((0 : Nat) : Int) := by
+    rw [BitVec.toInt_eq_toNat_cond]; split <;> bv_omega
+  rw [this, emod_prev h1 (by omega)]
+
+theorem getLastIndex_fromEnd (t : TRing α) (hwf : t.r.WF) (hS : t.r.size.toNat < 2 ^ 31)
+    (off i : Nat) (count : BitVec 32) (hk : off + i < t.r.size.toNat) :
+    (t.getLastIndex (BitVec.ofNat 32 off) count true i).toInt =
+      (prevSlot t.r.size.toNat t.r.head.toNat (off + i) : Int) := by
+  obtain ⟨h1, h2⟩ := hwf
+  unfold getLastIndex
+  simp only [if_true]
+  rw [fixupIndex_toInt t.r (by omega) hS,
+    toInt_head_sub t.r.head _ _ off i (ofNat32_small (by omega)) (ofNat32_small (by omega))
+      (by omega) (by omega), emod_prev h1 hk]
+
+theorem getLastIndex_fromStart (t : TRing α) (hwf : t.r.WF) (hS : t.r.size.toNat < 2 ^ 31)
+    (off count i : Nat) (hi : i < count) (hk : count + off ≤ t.r.size.toNat) :
+    (t.getLastIndex (BitVec.ofNat 32 off) (BitVec.ofNat 32 count) false i).toInt =
+      (prevSlot t.r.size.toNat t.r.head.toNat (count + off - 1 - i) : Int) := by
+  obtain ⟨h1, h2⟩ := hwf
+  unfold getLastIndex
+  simp only [Bool.false_eq_true, if_false]
+  rw [fixupIndex_toInt t.r (by omega) hS,
+    toInt_head_sub_add t.r.head _ _ _ count off i (ofNat32_small (by omega))
+      (ofNat32_small (by omega)) (ofNat32_small (by omega)) (by omega) (by omega) hi,
+    emod_prev h1 (by omega)]
+
+end TRing
+
 end Igris.C03
